@@ -195,4 +195,26 @@ theorem e2e_convertf_inline_links_resolve : type_of% @GM.Props.C16E2E.convertf_i
 /-- (re-export of `GM.Props.C16E2E.monitors_never_fire_of`) see `GM.Props.C16E2E.monitors_never_fire_of` -/
 theorem e2e_monitors_never_fire_of : type_of% @GM.Props.C16E2E.monitors_never_fire_of := @GM.Props.C16E2E.monitors_never_fire_of
 
+/-- (re-export of `GM.Props.C16E2E.convertf_close_discipline`) **The close discipline of the block driver with the footnote block parser** (`MF` copy; technique and parser-level
+    lemmas of GM.Proof.ConvertHWF*, carried over): for every source, guard setting and registration flag, in the final state
+    of the block phase the open-block stack is empty and the invariant `FJ` holds — the store is tree-shaped, every
+    `*ast.Footnote` and the FootnoteList are nodes of their store kind, NO node of that kind has lines, and every child edge to
+    a Footnote comes from the FootnoteList. -/
+theorem e2e_convertf_close_discipline : type_of% @GM.Props.C16E2E.convertf_close_discipline := @GM.Props.C16E2E.convertf_close_discipline
+
+/-- (re-export of `GM.Props.C16E2E.footnotes_all_filed`) **Every Footnote is filed** — `FootnotesAllFiled` is a theorem. -/
+theorem e2e_footnotes_all_filed : type_of% @GM.Props.C16E2E.footnotes_all_filed := @GM.Props.C16E2E.footnotes_all_filed
+
+/-- (re-export of `GM.Props.C16E2E.monitors_never_fire`) **NO DOMAIN MONITOR OF THE FOOTNOTE MODEL EVER FIRES** — `MonitorsNeverFire` is a theorem, for every byte string: after
+    every block phase `monitorFires = false` and the tagged tree is `clean`; every FootnoteLink of every inline phase points at
+    a definition of the list. With `shape_always_ok` and `convertf_footnotes_consistent_unconditional`: C16 end to end for
+    every byte string with no footnote monitor left in the way. -/
+theorem e2e_monitors_never_fire : type_of% @GM.Props.C16E2E.monitors_never_fire := @GM.Props.C16E2E.monitors_never_fire
+
+/-- (re-export of `GM.Props.C16E2E.convertf_no_footnote_monitor_outcome`) **…in terms of outcomes**: for every byte string (guard setting, Unicode class assignment) the parse phases of the composed
+    model with the extension never answer `value pre` — the outcome of every footnote monitor of the tree phase (`stray`, lines
+    on a Footnote / the list, a FootnoteLink to no definition) — and they answer `blocks pre` only when the BLOCK PHASE itself
+    does (the retry contract monitors of the block driver that `convertCore` has too), never because of `monitorFires`. -/
+theorem e2e_convertf_no_footnote_monitor_outcome : type_of% @GM.Props.C16E2E.convertf_no_footnote_monitor_outcome := @GM.Props.C16E2E.convertf_no_footnote_monitor_outcome
+
 end GM.Props.C16
